@@ -31,6 +31,10 @@
 #include <sched.h>
 #include <sys/stat.h>
 #include <netdb.h>
+#include <fcntl.h>
+#include <unistd.h>
+#include <stdlib.h>
+#include <sys/syscall.h>
 #ifndef VERIF_NO_PRIVATE
 #define SOCK_FD(sockref) ((sockref).s)
 #define SOCK_TAKE_FD(sockref, out) do { (out) = (sockref).s; (sockref).s = -1; } while (0)
@@ -1015,6 +1019,20 @@ static int t_active = 0, t_done = 0;
 static int t_pfd = -1; static u64 t_inSent = 0;
 struct TArg { int id; int n; u64 seed; long maxDelayUs; bool sender; };
 
+static int t_loopTid = 0;
+// true when the thread that runs Server::run is sleeping inside an epoll_wait system call; *ctxsw = its context switches so far
+static bool loopThreadParked(long* ctxsw) {
+  char path[96], buf[2048]; *ctxsw = -1;
+  snprintf(path, sizeof path, "/proc/self/task/%d/syscall", t_loopTid);
+  int fd = open(path, O_RDONLY); if (fd < 0) return false; long n = read(fd, buf, sizeof buf - 1); close(fd); if (n <= 0) return false; buf[n] = 0;
+  long nr = strtol(buf, 0, 10); if (!(nr == 232 || nr == 281 || nr == 441)) return false;   // epoll_wait, epoll_pwait, epoll_pwait2 (x86-64)
+  snprintf(path, sizeof path, "/proc/self/task/%d/status", t_loopTid);
+  fd = open(path, O_RDONLY); if (fd < 0) return false; n = read(fd, buf, sizeof buf - 1); close(fd); if (n <= 0) return false; buf[n] = 0;
+  const char* st = strstr(buf, "State:"); if (!st || !strstr(st, "S (sleeping)") || strstr(st, "S (sleeping)") > st + 12) return false;
+  const char* v = strstr(buf, "voluntary_ctxt_switches:"); const char* nv = strstr(buf, "nonvoluntary_ctxt_switches:"); if (!v || !nv) return false;
+  *ctxsw = strtol(v + 24, 0, 10) + strtol(nv + 27, 0, 10); return true;
+}
+
 static void* interrupter(void* p) {
   TArg* a = (TArg*)p; Rng r(a->seed, 1499, (u64)a->id);
   u8 buf[64];
@@ -1029,7 +1047,15 @@ static void* interrupter(void* p) {
     int64_t w0 = ns::realMonotonicMs(); long nap = 20;
     while (__atomic_load_n(&t_returns, __ATOMIC_SEQ_CST) <= r0) {
       su::sleepUs(nap); if (nap < 1000) nap *= 2;
-      if (ns::realMonotonicMs() - w0 > 30000) harnessBug("threads: run() did not return within 30 s after interrupt() from thread %d (inconclusive: wall-clock bound)", a->id);
+      if (ns::realMonotonicMs() - w0 > 30000) {
+        // Bounded progress, decided on the loop thread's scheduler state and not on the clock alone: interrupt() returned more than 30 s ago; if the loop thread
+        // has been parked inside epoll_wait without a single context switch for a further 5 s, the wake-up was lost (or consumed without run() returning).
+        // A loop thread that is runnable, starved or anywhere else leaves the verdict inconclusive.
+        long c0 = 0, c1 = 0; bool p0 = loopThreadParked(&c0); su::sleepUs(5000000); bool p1 = loopThreadParked(&c1);
+        if (p0 && p1 && c0 == c1 && __atomic_load_n(&t_returns, __ATOMIC_SEQ_CST) <= r0)
+          fail("Server.interrupt/threaded/run-did-not-return", "interrupt() from thread %d returned more than 30 s ago, run() has not returned and its thread sits in epoll_wait without having been scheduled once in the last 5 s", a->id);
+        harnessBug("threads: run() did not return within 30 s after interrupt() from thread %d (inconclusive: wall-clock bound, loop thread not parked)", a->id);
+      }
     }
   }
   if (__atomic_sub_fetch(&t_active, 1, __ATOMIC_SEQ_CST) == 0) {
@@ -1068,6 +1094,7 @@ static void threadCase(long idx) {
   int nthreads = 1 + (int)r.below(3);
   static const long DELAYS[] = { 0, 50, 300, 2000 };
   long maxDelay = DELAYS[r.below(4)];
+  t_loopTid = (int)syscall(SYS_gettid);
   t_srv = new Server; t_returns = t_started = t_completed = t_unacked = 0; t_active = nthreads; t_done = 0; t_inSent = 0;
   RTimerCB tcb[2]; Server::Timer* tm[2] = { 0, 0 }; int ntimers = (int)r.below(3);
   for (int i = 0; i < ntimers; ++i) { tcb[i].interval = 1 + (int64_t)r.below(5); tcb[i].k = 0; tcb[i].alive = true; tcb[i].t0 = Time::ticks(); tm[i] = t_srv->time(tcb[i].interval, tcb[i]); }
